@@ -272,6 +272,10 @@ feature('global-bound-in-function',
 feature('global-read-in-function',
         ['def g():', '    global $X', '    {R1:$X@g}', '    {B1:$X/global-assign} = 0', 'g()', '{R2:$X}'],
         ['def g():', '    global $X, $X__s', '    {R1}', '    $X = 0; $X__s = {d1}', 'g()', '{R2}'], binds='$X', c02=False, c03=False)
+feature('global-skips-enclosing',
+        ['def g():', '    {B1:$X@g/assign} = 0', '    def h():', '        global $X', '        return {R1:$X@Gh}', '    return h()', 'if _o():', '    g()'],
+        ['def g():', '    $X = 0; $X__s = {d1}', '    def h():', '        global $X, $X__s', '        return {R1}', '    return h()', 'if _o():', '    g()'],
+        c02=True, c03=True, note='scope label G*: the name is declared global there, it is a module-level read')
 feature('nonlocal',
         ['def g():', '    {B1:$X@g/assign} = 0', '    def h():', '        nonlocal $X', '        {B2:$X@g/nonlocal-assign} = 1', '    if _o():', '        h()', '    {R1:$X@g}', 'g()'],
         ['def g():', '    $X = 0; $X__s = {d1}', '    def h():', '        nonlocal $X, $X__s', '        $X = 1; $X__s = {d2}', '    if _o():', '        h()', '    {R1}', 'g()'],
